@@ -466,9 +466,59 @@ def part_text_args(ctx, res):
                     res.violation(f"text-arg-raised:{name}:{type(ex).__name__}", {"given": t, "exc": repr(ex)}, case)
 
 
+CONTENT_STRINGS = ["x", "x\n", "x\n\n", "a\nb\n", "\n", " lead\n", "two\n\nparas", "tab\tin\n", "é\n"]
+
+
+def part_content_readers(ctx, res):
+    """Content given as a str to the classes that hold paragraphs is read back exactly through their content
+    property, line ends at the end included; directly and after re-parsing."""
+    from odfdo import Annotation, Cell, Element, ListItem, Note
+
+    makers = {
+        "Note.note_body": (lambda s_: Note("footnote", note_id="n1", citation="1", body=s_), lambda e: e.note_body),
+        "Annotation.note_body": (lambda s_: Annotation(s_, creator="vf"), lambda e: e.note_body),
+        "ListItem.text_content": (lambda s_: ListItem(s_), lambda e: e.text_content),
+        "Cell.text_content": (lambda s_: Cell(text=s_), lambda e: e.text_content),
+    }
+    for name, (mk, rd) in makers.items():
+        for s_ in CONTENT_STRINGS:
+            res.judge()
+            res.cls(("content-reader", name, "trailing-newline" if s_.endswith("\n") else "plain"), True)
+            case = {"kind": "content-reader", "maker": name, "text": s_}
+            try:
+                e = mk(s_)
+                for label, got in (("direct", rd(e)), ("reparse", rd(Element.from_tag(e.serialize(with_ns=True))))):
+                    if got != s_:
+                        res.violation(f"content-reader:{name}:{label}-differs", {"given": s_, "got": got}, case)
+                        break
+            except Exception as ex:
+                res.violation(f"content-reader-raised:{name}:{type(ex).__name__}", {"given": s_, "exc": repr(ex)}, case)
+    # content of another vocabulary in its own default name space (a formula inside a frame, as flat files hold it)
+    foreign = [
+        '<draw:frame draw:name="f1" svg:width="2cm" svg:height="1cm"><draw:object><math xmlns="http://www.w3.org/1998/Math/MathML"><mrow><mi>x</mi><mo>=</mo><mn>1</mn></mrow></math></draw:object></draw:frame>',
+        '<text:p>formula <draw:frame draw:name="f2"><draw:object><math xmlns="http://www.w3.org/1998/Math/MathML" display="block"><mi>y</mi></math></draw:object></draw:frame> end</text:p>',
+        '<text:p><text:span>svg <svg xmlns="http://www.w3.org/2000/svg" width="1"><g/></svg></text:span></text:p>',
+    ]
+    for xml in foreign:
+        res.judge()
+        res.cls(("content-roundtrip", "foreign-default-namespace"), True)
+        case = {"kind": "content", "xml": xml}
+        try:
+            e = Element.from_tag(xml)
+            for label, ser in (("with_ns", e.serialize(with_ns=True)), ("stripped", e.serialize())):
+                back = Element.from_tag(ser)
+                if type(back) is not type(e) or c14n_notail(back._Element__element) != c14n_notail(e._Element__element):
+                    res.violation(f"content-roundtrip:differs:{label}", {"before": e.serialize(with_ns=True)[-300:], "after": back.serialize(with_ns=True)[-300:]}, case)
+                    break
+        except Exception as ex:
+            res.violation(f"content-roundtrip-raised:{type(ex).__name__}", {"xml": xml, "exc": repr(ex)}, case)
+
+
 def run(ctx, res):
     if ctx.shard == 0:
         part_text_args(ctx, res)
+    if ctx.shard == 1 % ctx.nshards:
+        part_content_readers(ctx, res)
     part_ctor(ctx, res)
     part_dispatch(ctx, res)
     part_content_roundtrip(ctx, res)
@@ -492,6 +542,12 @@ def replay(case):
             quick = False
         part_dispatch(_Q, res, only=case)
         return res.violations
+    if case.get("kind") == "content-reader":
+        class _C1:
+            shard = 1
+            nshards = 16
+        part_content_readers(_C1, res)
+        return [v for v in res.violations if v["case"] == case]
     if case.get("kind") == "text-arg":
         class _C:
             shard = 0
